@@ -35,13 +35,13 @@ def main() -> None:
             out = []
             for _ in range(job.get("times", 1)):
                 run, F, _ = runner.execute(prop, job["scenario"], schedule=job["schedule"], salt=job.get("salt", 0))
-                out.append({"digest": run.digest(), "findings": F[:10], "status": run.status,
+                out.append({"digest": run.digest(), "findings": F[:200], "status": run.status,
                             "steps": run.sim.step})
             # the recorded schedule may diverge on a changed tree: also sample fresh schedules of the same scenario
             for j in range(job.get("extra", 0)):
                 strat = ["uniform", "pct2", "sticky", "fifo2"][j % 4]
                 run, F, _ = runner.execute(prop, job["scenario"], strategy=strat, sseed=f"pinned:{j}", salt=job.get("salt", 0))
-                out.append({"digest": run.digest(), "findings": F[:10], "status": run.status, "steps": run.sim.step, "extra": True})
+                out.append({"digest": run.digest(), "findings": F[:200], "status": run.status, "steps": run.sim.step, "extra": True})
             res = {"ok": True, "runs": out}
         except Exception:
             res = {"ok": False, "error": traceback.format_exc()[-2000:]}
